@@ -71,6 +71,7 @@ PROP_MODELS = {
     'C01': ['mutableseq'],
     'C02': ['mutableseq'],
     'C17': ['trig', 'numpy.small', 'mutableseq'],
+    'C04': ['trig', 'sqrt'],
     'C08': ['sqrt', 'numpy.poly1d', 'numpy.roots', 'mutableseq'],
     'C14': ['numpy.poly1d', 'numpy.small', 'mutableseq'],
     'C09': ['mutableseq'],
